@@ -44,7 +44,7 @@ ROOT = Path(__file__).resolve().parent.parent
 REPO = Path(os.environ.get('VERIF_REPO', '/repo'))
 EVIDENCE_DIR = ROOT / 'evidence'
 REPLAY_DIR = ROOT / 'replay'
-FINDINGS_FILE = ROOT / 'known_findings.json'
+FINDINGS_DIR = ROOT / 'known_findings'
 PYTHON = '/venv/bin/python'
 NWORKERS = int(os.environ.get('VERIF_WORKERS', '16'))
 
@@ -75,15 +75,22 @@ def scratch_dir(prefix='verif_'):
 
 def load_findings(pid):
     """Known findings of a property: {key: entry} for open ones, and fixed ones."""
-    if not FINDINGS_FILE.exists():
+    ff = FINDINGS_DIR / f'{pid}.json'
+    if not ff.exists():
         return {}, {}
-    data = json.loads(FINDINGS_FILE.read_text())
+    data = json.loads(ff.read_text())
     open_, fixed = {}, {}
     for e in data.get('findings', []):
         if e.get('property') != pid:
             continue
         (open_ if e.get('status') == 'open' else fixed)[e['key']] = e
     return open_, fixed
+
+
+def ncases_of(mod, tier):
+    if os.environ.get('VERIF_CASES'):
+        return int(os.environ['VERIF_CASES'])
+    return mod.CASES[tier]
 
 
 def load_check(pid):
@@ -103,7 +110,7 @@ def worker_main(pid, tier, seed, shard, nshards, outfile, indices=None):
     anchors = getattr(mod, 'ANCHORS', [])
     if anchors:
         reach.start(anchors)
-    ncases = mod.CASES[tier]
+    ncases = ncases_of(mod, tier)
     budget = getattr(mod, 'BUDGET_S', {}).get(tier, 3600 if tier == 'thorough' else 600)
     case_timeout = getattr(mod, 'CASE_TIMEOUT_S', 120)
     t0 = time.time()
@@ -176,7 +183,7 @@ def run_check(pid, tier, seed, replay=None):
     evfile = EVIDENCE_DIR / f'{pid}.json'
     if replay is None and evfile.exists():
         evfile.unlink()
-    ncases = mod.CASES[tier]
+    ncases = ncases_of(mod, tier)
     nshards = min(getattr(mod, 'WORKERS', NWORKERS), max(1, ncases))
     indices = None
     if replay:
@@ -300,6 +307,8 @@ def conclude(pid, mod, tier, seed, agg, t0, write_evidence=True):
     reasons = list(agg.get('extra_inconclusive', []))
     nontriv = len(agg['sigs'])
     minnt = mod.MIN_NONTRIVIAL[tier] if hasattr(mod, 'MIN_NONTRIVIAL') else 2
+    if os.environ.get('VERIF_CASES'):
+        minnt = 2
     single = agg['evaluations'] <= 1 and mod.CASES[tier] > 1   # replay
     if not single:
         if nontriv < max(2, minnt):
